@@ -64,6 +64,8 @@ theorem C10_intersect_mem (a b : Charset) (ha : Normalized a) (hb : Normalized b
     Mem r (intersect a b) ↔ Mem r a ∧ Mem r b :=
   (intersect_spec a b ha hb).1 r
 
+example : Normalized [(1, 5), (9, 12)] ∧ Normalized [(4, 10)] := by decide
+
 theorem C10_intersect_normalized (a b : Charset) (ha : Normalized a) (hb : Normalized b) :
     Normalized (intersect a b) :=
   (intersect_spec a b ha hb).2.1
@@ -149,6 +151,12 @@ theorem C10_namedSet_script_nofold (tabs : List NamedTable) (name : String) (t :
   subst hb
   simp [namedSet, h1, h2, hc, hs]
 
+example : ∃ tabs : List NamedTable, ∃ t, ("Greek" == "Any") = false ∧ ("Greek" == "Ascii") = false ∧
+    tabs.find? (fun t => t.name == "Greek" && t.kind == .category) = none ∧
+    tabs.find? (fun t => t.name == "Greek" && t.kind == .script) = some t :=
+  ⟨[⟨"Greek", .script, [(0x370, 0x373)], [(0xB5, 0xB5)]⟩], ⟨"Greek", .script, [(0x370, 0x373)], [(0xB5, 0xB5)]⟩,
+    by decide, by decide, rfl, rfl⟩
+
 /-- … while the mirror of the pinned tree (FoldScript added unconditionally) puts U+00B5 into `\p{Greek}`. -/
 theorem C10_namedSet_script_current_tree_refuted :
     namedSet [⟨"Greek", .script, [(0x370, 0x373)], [(0xB5, 0xB5)]⟩] true "Greek" false false =
@@ -196,5 +204,8 @@ theorem C10_canon_lang (ρ : List Nat → List Int → Prop) (r : Regex) (w : Li
 theorem C10_canon_eq_lang (ρ : List Nat → List Int → Prop) (r g : Regex) (h : canon r = canon g)
     (w : List Int) : Lang ρ r w ↔ Lang ρ g w := by
   rw [← canon_lang ρ r w, ← canon_lang ρ g w, h]
+
+example : canon (.cat .eps (.alt (.ext [97]) .eps)) = canon (.cat (.alt (.ext [97]) .eps) (.rep .eps 0 (some 0))) := by
+  decide
 
 end TmVerif.C10
